@@ -266,6 +266,24 @@ def var_id(node):
     return None
 
 
+def root_var_id(node):
+    """local id behind borrows, derefs (incl. overloaded deref calls) and field/index projections"""
+    n = peel(node)
+    while True:
+        k = n.get("k")
+        if k == "Call" and n.get("n") in ("deref", "deref_mut", "as_mut_slice", "as_slice", "as_mut", "as_ref", "borrow", "borrow_mut", "index", "index_mut") and n.get("a"):
+            n = peel(n["a"][0])
+        elif k == "Field":
+            n = peel(n["e"])
+        elif k == "Index":
+            n = peel(n["l"])
+        else:
+            break
+    if n.get("k") in ("Var", "Upvar"):
+        return n["id"]
+    return None
+
+
 def is_self(node):
     n = peel(node)
     return n.get("k") in ("Var", "Upvar") and n.get("n") == "self"
